@@ -2,6 +2,7 @@ package rules
 
 import (
 	"go/ast"
+	"go/constant"
 	"go/token"
 	"go/types"
 	"strings"
@@ -175,6 +176,124 @@ func runC20(p *eng.Prog, r *eng.Report, tier string) {
 			})
 			c.r.Check("C20.2", f, "form comparator", "T: forms are ordered by their FORM_TYPE value", lit.Pos(), okc, "comparator does not read FORM_TYPE")
 		}
+	}
+
+	// ---- C20.6 every element of a hashed collection feeds the hash -----------------------
+	// (an element skipped by a continue/break is missing from the string of
+	// XEP-0115 5.1 and makes two different infos collide)
+	nl := 0
+	f.WalkBody(func(nd ast.Node) bool {
+		rs, ok := nd.(*ast.RangeStmt)
+		if !ok {
+			return true
+		}
+		// direct writes of this loop's body (not those of nested loops)
+		var direct []*ast.CallExpr
+		for _, w := range writesHash(f, rs.Body, hname) {
+			nested := false
+			for p := g.Parent(w); p != nil && p != rs; p = g.Parent(p) {
+				switch p.(type) {
+				case *ast.RangeStmt, *ast.ForStmt, *ast.FuncLit:
+					nested = true
+				}
+			}
+			if !nested {
+				direct = append(direct, w)
+			}
+		}
+		if len(direct) == 0 {
+			return true
+		}
+		// prefer the writes that mention the loop's value variable
+		if vid, ok := rs.Value.(*ast.Ident); ok && vid.Name != "_" {
+			vo := f.Info().ObjectOf(vid)
+			var ment []*ast.CallExpr
+			for _, w := range direct {
+				uses := false
+				ast.Inspect(w, func(x ast.Node) bool {
+					if idn, ok := x.(*ast.Ident); ok && f.Info().ObjectOf(idn) == vo {
+						uses = true
+					}
+					return !uses
+				})
+				if uses {
+					ment = append(ment, w)
+				}
+			}
+			if len(ment) > 0 {
+				direct = ment
+			}
+		}
+		body, head, done, okp := g.LoopPoints(rs)
+		if !okp {
+			c.r.Check("C20.6", f, "loop over "+f.Norm(rs.X, nil)+" feeds the hash on every iteration", "loop located in the graph", rs.Pos(), false, "loop blocks not found")
+			return true
+		}
+		nl++
+		isWrite := func(q eng.Point, x ast.Node) bool {
+			for _, w := range direct {
+				if containsNode(x, w) {
+					return true
+				}
+			}
+			return false
+		}
+		okw := g.MustPassBefore(body, head, isWrite, nil) && g.MustPassBefore(body, done, isWrite, nil)
+		c.r.Check("C20.6", f, "loop over "+f.Norm(rs.X, nil)+" feeds the hash on every iteration", "O: every path through one iteration (to the next iteration or out of the loop) passes the write of the element", rs.Pos(), okw, "an iteration can end without writing its element to the hash: the element is missing from the verification string")
+		return true
+	})
+	c.r.Floor("C20.6", "hashing loops", nl, 5)
+
+	// ---- C20.7 the form type is readable: Data.Get yields a string for hidden fields ------
+	// (AppendHash reads FORM_TYPE with GetString; any other dynamic type gives "")
+	if gf := c.fn("C20.7", "form", "(*Data).Get"); gf != nil {
+		nr := 0
+		gf.WalkBody(func(nd ast.Node) bool {
+			sw, ok := nd.(*ast.SwitchStmt)
+			if !ok || sw.Tag == nil || !strings.HasSuffix(gf.Norm(sw.Tag, nil), ".typ") {
+				return true
+			}
+			clauses := sw.Body.List
+			for i, st := range clauses {
+				cc := st.(*ast.CaseClause)
+				covers := false
+				for _, e := range cc.List {
+					if cv := gf.ConstVal(e); cv != nil && cv.Kind() == constant.String {
+						if v := constant.StringVal(cv); v == "hidden" || v == "" {
+							covers = true
+						}
+					}
+				}
+				if !covers {
+					continue
+				}
+				// the clause and the clauses it falls through to
+				for j := i; j < len(clauses); j++ {
+					body := clauses[j].(*ast.CaseClause).Body
+					for _, bs := range body {
+						ast.Inspect(bs, func(x ast.Node) bool {
+							if _, isLit := x.(*ast.FuncLit); isLit {
+								return false
+							}
+							if r, ok := x.(*ast.ReturnStmt); ok && len(r.Results) == 2 {
+								nr++
+								t := gf.Info().TypeOf(r.Results[0])
+								c.r.Check("C20.7", gf, "value returned for a hidden field", "T: every return in the arm of hidden (and untyped) fields yields a string: GetString(\"FORM_TYPE\") in AppendHash reads it", r.Pos(), t != nil && eng.TypeStr(t) == "string", "returns a value of type "+eng.TypeStr(t)+": GetString gives \"\" and the form type drops out of the hash")
+							}
+							return true
+						})
+					}
+					if len(body) == 0 {
+						break
+					}
+					if br, ok := body[len(body)-1].(*ast.BranchStmt); !ok || br.Tok != token.FALLTHROUGH {
+						break
+					}
+				}
+			}
+			return true
+		})
+		c.r.Floor("C20.7", "returns in the hidden-field arm of Data.Get", nr, 2)
 	}
 
 	// ---- C20.3 layout ---------------------------------------------------------------------------
